@@ -816,11 +816,20 @@ impl LdapConnAsync {
                             return Err(LdapError::from(e));
                         } else {
                             match op {
+                                // If the caller has already given up on the operation (timeout), the
+                                // request to scrub this id may have been handled before the operation
+                                // itself; registering it now would leave an entry nobody removes.
                                 LdapOp::Single => {
-                                    self.resultmap.insert(id, tx);
+                                    if !tx.is_closed() {
+                                        self.resultmap.insert(id, tx);
+                                    }
                                     continue;
                                 },
-                                LdapOp::Search(_) => (),
+                                LdapOp::Search(_) => {
+                                    if tx.is_closed() {
+                                        self.searchmap.remove(&id);
+                                    }
+                                },
                                 LdapOp::Abandon(msgid) => {
                                     let was_single = self.resultmap.remove(&msgid).is_some();
                                     let was_search = self.searchmap.remove(&msgid).is_some();
